@@ -275,19 +275,15 @@ structure Evolves (s s' : StaticSound ℝ) : Prop where
   sampleRate : s'.sampleRate = s.sampleRate
   reverse : s'.reverse = s.reverse
   core : Reach s.core s'.core
-  win : s.SliceOk → s.WinOk → s'.WinOk
+  win : s.WinOk → s'.WinOk
 
 theorem Evolves.refl (s : StaticSound ℝ) : Evolves s s :=
-  ⟨rfl, rfl, rfl, rfl, Reach.refl _, fun _ h => h⟩
-
-theorem sliceOk_of_eq {s s' : StaticSound ℝ} (hf : s'.frames = s.frames) (hs : s'.slice = s.slice)
-    (h : s.SliceOk) : s'.SliceOk := by
-  unfold SliceOk at *; rw [hf, hs]; exact h
+  ⟨rfl, rfl, rfl, rfl, Reach.refl _, fun h => h⟩
 
 theorem Evolves.trans {a b c : StaticSound ℝ} (h1 : Evolves a b) (h2 : Evolves b c) : Evolves a c :=
   ⟨by rw [h2.frames, h1.frames], by rw [h2.slice, h1.slice], by rw [h2.sampleRate, h1.sampleRate],
    by rw [h2.reverse, h1.reverse], h1.core.trans h2.core,
-   fun hs hw => h2.win (sliceOk_of_eq h1.frames h1.slice hs) (h1.win hs hw)⟩
+   fun hw => h2.win (h1.win hw)⟩
 
 theorem fromSlice_congr {s s' : StaticSound ℝ} (hf : s'.frames = s.frames) (hs : s'.slice = s.slice) (f : Frame ℝ) :
     s'.FromSlice f ↔ s.FromSlice f := by
@@ -300,17 +296,17 @@ theorem pushFrame_evolves (s s1 : StaticSound ℝ) (h : s.pushFrameToResampler =
     · cases h
     · rename_i fo hf
       injection h with h; subst h
-      refine ⟨rfl, rfl, rfl, rfl, Reach.refl _, fun hs hw => ⟨hw.2.1, hw.2.2.1, hw.2.2.2, ?_⟩⟩
+      refine ⟨rfl, rfl, rfl, rfl, Reach.refl _, fun hw => ⟨hw.2.1, hw.2.2.1, hw.2.2.2, ?_⟩⟩
       show FromSlice s (fo.getD Frame.zero)
       by_cases hi : s.transport.position < s.nFrames
-      · obtain ⟨f, hf', hg, _⟩ := (frameAtIndex_ok s hs s.transport.position).1 hi
+      · obtain ⟨f, hf', hg, _⟩ := (frameAtIndex_ok s s.transport.position).1 hi
         rw [hf'] at hf; injection hf with hf; subst hf
         exact Or.inr ⟨_, hi, hg⟩
-      · have hn := (frameAtIndex_ok s hs s.transport.position).2 (by omega)
+      · have hn := (frameAtIndex_ok s s.transport.position).2 (by omega)
         rw [hn] at hf; injection hf with hf; subst hf
         exact Or.inl rfl
   · injection h with h; subst h
-    exact ⟨rfl, rfl, rfl, rfl, Reach.refl _, fun _ hw => ⟨hw.2.1, hw.2.2.1, hw.2.2.2, Or.inl rfl⟩⟩
+    exact ⟨rfl, rfl, rfl, rfl, Reach.refl _, fun hw => ⟨hw.2.1, hw.2.2.1, hw.2.2.2, Or.inl rfl⟩⟩
 
 theorem updatePosition_evolves (s s' : StaticSound ℝ) (h : s.updatePosition = .ok s') : Evolves s s' := by
   unfold updatePosition at h
@@ -326,12 +322,12 @@ theorem updatePosition_evolves (s s' : StaticSound ℝ) (h : s.updatePosition = 
       refine e1.trans ?_
       split at h
       · injection h with h; subst h
-        exact ⟨rfl, rfl, rfl, rfl, Reach.single s1.core .markStopped, fun _ hw => hw⟩
+        exact ⟨rfl, rfl, rfl, rfl, Reach.single s1.core .markStopped, fun hw => hw⟩
       · injection h with h; subst h
-        exact ⟨rfl, rfl, rfl, rfl, Reach.refl _, fun _ hw => hw⟩
+        exact ⟨rfl, rfl, rfl, rfl, Reach.refl _, fun hw => hw⟩
 
 theorem setFrac_evolves (x : ℝ) (s : StaticSound ℝ) : Evolves s { s with frac := x } :=
-  ⟨rfl, rfl, rfl, rfl, Reach.refl _, fun _ hw => hw⟩
+  ⟨rfl, rfl, rfl, rfl, Reach.refl _, fun hw => hw⟩
 
 theorem stepPos_evolves : ∀ (fuel : Nat) (s s' : StaticSound ℝ), stepPos fuel s = .ok s' → Evolves s s' := by
   intro fuel
@@ -407,7 +403,7 @@ theorem process_evolves (fuel : Nat) (s s' : StaticSound ℝ) (len : Nat) (dt : 
   | false =>
     simp only [hg] at h
     injection h with h; injection h with h1 h2; subst h1 h2
-    refine ⟨⟨rfl, rfl, rfl, rfl, Reach.single s.core (.gate _ info), fun _ hw => hw⟩, by simp, fun _ => ?_⟩
+    refine ⟨⟨rfl, rfl, rfl, rfl, Reach.single s.core (.gate _ info), fun hw => hw⟩, by simp, fun _ => ?_⟩
     exact ⟨rfl, rfl, rfl, rfl, rfl, rfl⟩
   | true =>
     simp only [hg, if_true] at h
@@ -418,7 +414,7 @@ theorem process_evolves (fuel : Nat) (s s' : StaticSound ℝ) (len : Nat) (dt : 
         playbackRate := (s.playbackRate.update tw64 (dt * (len : ℝ)) info).1
         panning := (s.panning.update tw32 (dt * (len : ℝ)) info).1
         core := (s.core.gate (dt * (len : ℝ)) info).1 } :=
-      ⟨rfl, rfl, rfl, rfl, Reach.single s.core (.gate _ info), fun _ hw => hw⟩
+      ⟨rfl, rfl, rfl, rfl, Reach.single s.core (.gate _ info), fun hw => hw⟩
     exact e0.trans e
 
 theorem seekToIndex_evolves (s s' : StaticSound ℝ) (idx : Nat) (h : s.seekToIndex idx = .ok s') :
@@ -432,7 +428,7 @@ theorem seekToIndex_evolves (s s' : StaticSound ℝ) (idx : Nat) (h : s.seekToIn
     | error f => simp [ht] at h
     | ok t =>
       simp only [ht] at h
-      have e0 : Evolves s { s with transport := t } := ⟨rfl, rfl, rfl, rfl, Reach.refl _, fun _ hw => hw⟩
+      have e0 : Evolves s { s with transport := t } := ⟨rfl, rfl, rfl, rfl, Reach.refl _, fun hw => hw⟩
       split at h
       · obtain ⟨fo, hfo⟩ := pushFrame_shape _ s' h
         exact ⟨e0.trans (pushFrame_evolves _ s' h), by rw [hfo]⟩
@@ -470,7 +466,7 @@ theorem applyOpt_reach {β : Type} (o : Option β) (f : β → SoundCore ℝ →
   | some b => exact hf b c
 
 theorem readLifeCmds_evolves (c : Commands ℝ) (s : StaticSound ℝ) : Evolves s (readLifeCmds c s) := by
-  refine ⟨rfl, rfl, rfl, rfl, ?_, fun _ hw => hw⟩
+  refine ⟨rfl, rfl, rfl, rfl, ?_, fun hw => hw⟩
   unfold readLifeCmds
   simp only []
   exact ((applyOpt_reach c.pause _ s.core (fun tw c => Reach.single c (.pause tw))).trans
@@ -485,12 +481,12 @@ theorem readLoopCmd_evolves (c : Commands ℝ) (s s' : StaticSound ℝ) (h : rea
   · unfold setLoopRegion at hr
     obtain ⟨n, _, hn⟩ := andThen_ok _ _ _ hr
     injection hn with hn; subst hn
-    exact ⟨⟨rfl, rfl, rfl, rfl, Reach.refl _, fun _ hw => hw⟩, rfl, rfl⟩
+    exact ⟨⟨rfl, rfl, rfl, rfl, Reach.refl _, fun hw => hw⟩, rfl, rfl⟩
 
 theorem readCommands_evolves (s s' : StaticSound ℝ) (h : s.readCommands = .ok s') : Evolves s s' := by
   unfold readCommands at h
   obtain ⟨s1, h1, h2⟩ := andThen_ok _ _ _ h
-  have e0 : Evolves s s.readParamCmds := ⟨rfl, rfl, rfl, rfl, Reach.refl _, fun _ hw => hw⟩
+  have e0 : Evolves s s.readParamCmds := ⟨rfl, rfl, rfl, rfl, Reach.refl _, fun hw => hw⟩
   exact e0.trans ((readLoopCmd_evolves _ _ s1 h1).1.trans
     ((readLifeCmds_evolves s.cmds s1).trans (readSeekCmds_evolves _ _ s' h2).1))
 
@@ -498,7 +494,7 @@ theorem onStartProcessing_evolves (s s' : StaticSound ℝ) (h : s.onStartProcess
   unfold onStartProcessing at h
   have e0 : Evolves s { s with sharedPosition :=
       (KOps.ofNat s.resampler.currentFrameIndex : ℝ) / (KOps.ofNat s.sampleRate : ℝ) } :=
-    ⟨rfl, rfl, rfl, rfl, Reach.refl _, fun _ hw => hw⟩
+    ⟨rfl, rfl, rfl, rfl, Reach.refl _, fun hw => hw⟩
   exact e0.trans (readCommands_evolves _ s' h)
 
 theorem step_evolves (fuel : Nat) (s s' : StaticSound ℝ) (op : Op ℝ) (outs : List (Frame ℝ))
@@ -507,7 +503,7 @@ theorem step_evolves (fuel : Nat) (s s' : StaticSound ℝ) (op : Op ℝ) (outs :
   | command c =>
     simp only [step] at h
     injection h with h; injection h with h1 h2; subst h1
-    exact ⟨rfl, rfl, rfl, rfl, Reach.refl _, fun _ hw => hw⟩
+    exact ⟨rfl, rfl, rfl, rfl, Reach.refl _, fun hw => hw⟩
   | startProcessing =>
     simp only [step] at h
     cases ho : s.onStartProcessing with
